@@ -16,7 +16,7 @@ INT_PROPS = {'orig_idx': 'int', 'row_idx': 'int', 'col_idx': 'int',
              'filter': 'int', 'tag': 'int', 'pid': 'int',
              'gid': 'unsigned int', 'ioid': 'int', 'disp_allowed': 'int',
              'is_boundary': 'int', 'idx': 'int', 'nbr_idx': 'int',
-             'iters': 'int'}
+             'iters': 'int', 'num_body': 'int'}
 POSITIVE = ('m', 'rho', 'h', 'V', 'cs', 'rho0', 'h0', 'm_mat', 'rhop', 'arho',
             'e', 'p', 'wij', 'rho_ref', 'vol', 'wdeltap', 'n', 'G', 'sigma',
             'alpha', 'div', 'omega', 'dw', 'grhox', 'rad_s', 'total_mass',
